@@ -16,6 +16,7 @@ package conf
 // an operator mapping that names a missing or ill-shaped function is rejected (C17): an entry that
 // survives one iteration of the inner loop is a function with the required shape
 //@   mode panics
+//@   loop 1 invariant[bounds] rangeindex >= -1 && rangeindex < len(fns)
 //@   loop 1 body-ensures[well-shaped] ok && kind(fnType.Type) == 19 && numin(fnType.Type) == requiredNumIn && numout(fnType.Type) == 1 && (requiredNumIn == 2 || requiredNumIn == 3) && ((requiredNumIn == 3) == fnType.Method)
 
 // Overload resolution (C17): the first function in list order whose two parameter types fit (l, r).
@@ -30,3 +31,8 @@ package conf
 //@   loop 0 modifies fresh
 //@   loop 0 invariant[none-so-far] forall(k, 0, rangeindex+1, !fit(k))
 //@   loop 0 invariant[bounds] rangeindex >= -1 && rangeindex < len(fns)
+
+// ConstExpr is an option callback: it runs outside any recover of the library (C04)
+//@ func conf.Config.ConstExpr
+//@   property C04
+//@   requires c != nil && c.ConstExprFns != nil
